@@ -203,7 +203,7 @@ def _wrapper_shape(expr, fn, defs, leaf_pred):
 
 
 def check_verify(check, repo, modname, qual, param, expected_roots,
-                 keyprefix="V"):
+                 keyprefix="V", expected_locals=()):
     """Rule V for one verify-like entry point."""
     mod = repo.module(modname)
     fn = repo.func(mod, qual)
@@ -265,6 +265,17 @@ def check_verify(check, repo, modname, qual, param, expected_roots,
 
     lp = paths_to(left, is_param_any, f2, defs)
     rp = paths_to(right, is_param_any, f2, defs)
+    if lp and rp and expected_locals:
+        # the expected value is itself computed from parts of the received
+        # one (salt, cost): the received side is the one that does not pass
+        # through the named expected local
+        def via_expected(paths):
+            return any(isinstance(x, ast.Name) and x.id in expected_locals
+                       for p in paths for x in p if not isinstance(x, tuple))
+        if via_expected(lp) and not via_expected(rp):
+            lp = []
+        elif via_expected(rp) and not via_expected(lp):
+            rp = []
     if lp and rp:
         check.ob("V", key + "|received", False, m2.path, cmp_.lineno,
                  extracted="both operands of `%s` depend on %s" % (norm(cmp_), p2),
@@ -290,7 +301,9 @@ def check_verify(check, repo, modname, qual, param, expected_roots,
     def is_expected(n):
         if isinstance(n, ast.Attribute) and isinstance(n.value, ast.Name) and \
                 n.value.id == "self" and n.attr in expected_roots:
-            par = getattr(n, "_parent", None)
+            return True
+        if isinstance(n, ast.Name) and n.id in expected_locals and \
+                isinstance(n.ctx, ast.Load):
             return True
         return False
 
